@@ -246,7 +246,9 @@ def rule_adapt(prog, rep):
     lo_f, up_f = ("attr", w, "lower"), ("attr", w, "upper")
     sl, su = ("attr", w, "lower_fn_sign"), ("attr", w, "upper_fn_sign")
     ok_hit = True
-    for a, b in ((0, 0), (1, 0), (0, 1), (1, 1)):  # a: upper sign is 0, b: lower sign is 0
+    # a: upper sign is 0, b: lower sign is 0.  (1, 1) is not a case: the loop exits only when the two end signs
+    # differ (checked above as the loop condition), so they cannot both be 0 on exit.
+    for a, b in ((0, 0), (1, 0), (0, 1)):
         gl = fold_where(subst(rl, lambda s: C(0 if a else 7) if same(s, su) else (C(0 if b else 7) if same(s, sl) else None)))
         gu = fold_where(subst(ru, lambda s: C(0 if a else 7) if same(s, su) else (C(0 if b else 7) if same(s, sl) else None)))
         el = up_f if a else lo_f
